@@ -32,12 +32,15 @@ func (q queryServer) CalculationCreatePosition(ctx context.Context, req *types.Q
 	if !ok {
 		return nil, types.ErrInvalidTickers
 	}
+	if !lowerTick.IsInt64() || !upperTick.IsInt64() {
+		return nil, types.ErrInvalidTickers
+	}
 	err = types.CheckTicks(lowerTick.Int64(), upperTick.Int64())
 	if err != nil {
 		return nil, types.ErrInvalidTickers
 	}
 	amount, ok := sdkmath.NewIntFromString(req.Amount)
-	if !ok {
+	if !ok || amount.IsNegative() {
 		return nil, types.ErrInvalidTokenAmounts
 	}
 
